@@ -13,7 +13,7 @@ for f in $(git diff --name-only --diff-filter=U | grep "^evidence/" || true); do
 python3 tools/gen_index.py >/dev/null
 python3 tools/gen_findings.py >/dev/null
 python3-vt tools/gen_manifest.py
+if git diff --name-only --diff-filter=U | grep -q .; then echo "UNRESOLVED (fix, git add, git commit):"; git diff --name-only --diff-filter=U; exit 1; fi
 git add -A
-if git diff --cached --name-only --diff-filter=U | grep -q .; then echo "UNRESOLVED:"; git diff --name-only --diff-filter=U; exit 1; fi
 git commit -qm "Merge $1"
 git log --oneline | head -1
